@@ -350,7 +350,8 @@ class Write(Contract):
 
 def registry():
     from contracts import posix_shell
-    return posix_shell.registry() + [EscapeStr(), Write()]
+    from contracts import lists
+    return posix_shell.registry() + [EscapeStr(), Write(), lists.Tween(), lists.NinjaWriteEach(), lists.NinjaWriteShell()]
 
 
 LEMMAS = []
